@@ -141,7 +141,10 @@ def _worker_run(item):
     t_unit = time.time()
     try:
         from isomc import impl
+        # every unit starts from the same process-wide state (mode, memo caches), whatever ran before it in this
+        # worker: verdicts must not depend on the unit-to-worker assignment
         impl.reset_mode()
+        impl.clear_caches()
         mod.run_unit(unit, ctx)
         impl.reset_mode()
     except BaseException:
